@@ -166,7 +166,14 @@ func (e *Engine) replayGoWitness(rr *ReplayResult, ct *Contract, ob *Obligation,
 	if p := e.prog.ImportedPackage(ct.Pkg); p != nil {
 		pkgName = p.Pkg.Name()
 	}
-	src := fmt.Sprintf("package %s\n\n// generated by /verif (govc): witness test for obligation %s\n\nimport (\n\t\"fmt\"\n\t\"testing\"\n)\n\nfunc TestVerifReplay(t *testing.T) {\n\tviolated := false\n\t%s\n\tif violated {\n\t\tfmt.Println(\"VERIF-REPLAY outcome: violated\")\n\t} else {\n\t\tfmt.Println(\"VERIF-REPLAY outcome: holds\")\n\t}\n}\n", pkgName, ob.Name, code)
+	// module packages the statements mention by name are imported
+	extra := ""
+	for name, path := range e.pkgNames {
+		if path != ct.Pkg && isModPath(path) && strings.Contains(code, name+".") {
+			extra += fmt.Sprintf("\t%q\n", path)
+		}
+	}
+	src := fmt.Sprintf("package %s\n\n// generated by /verif (govc): witness test for obligation %s\n\nimport (\n\t\"fmt\"\n\t\"testing\"\n"+extra+")\n\nfunc TestVerifReplay(t *testing.T) {\n\tviolated := false\n\t%s\n\tif violated {\n\t\tfmt.Println(\"VERIF-REPLAY outcome: violated\")\n\t} else {\n\t\tfmt.Println(\"VERIF-REPLAY outcome: holds\")\n\t}\n}\n", pkgName, ob.Name, code)
 	tmp := filepath.Join(o.Dir, "zz_verif_witness_test.go")
 	os.WriteFile(tmp, []byte(src), 0o644)
 	ov := map[string]map[string]string{"Replace": {filepath.Join(pkgDir, "zz_verif_witness_test.go"): tmp}}
